@@ -89,6 +89,27 @@ fn replay_bridge(r: &Value, verbose: bool) -> Vec<String> {
     bridge::run(&mut rig, table, opts, &hist, &mut st, verbose).iter().map(|v| format!("{} :: {}", v.sig, v.detail)).collect()
 }
 
+fn replay_conc(r: &Value, verbose: bool) -> Vec<String> {
+    let cfg = demux::Cfg::from_json(&r["cfg"]).unwrap_or_else(|| vh::machinery_failure("replay: bad cfg"));
+    let p = demux::Pkt::from_json(&r["packet"]).unwrap_or_else(|| vh::machinery_failure("replay: bad packet"));
+    let late = demux::Op::parse(r["late_op"].as_str().unwrap_or("")).unwrap_or_else(|| vh::machinery_failure("replay: bad late op"));
+    let schedule: Vec<usize> = r["schedule"].as_array().map(|a| a.iter().map(|v| v.as_u64().unwrap_or(0) as usize).collect()).unwrap_or_default();
+    let conn = demux::mk_conn();
+    let seq = [demux::conc_run(&cfg, p, late, Some(true), &[], &conn).1, demux::conc_run(&cfg, p, late, Some(false), &[], &conn).1];
+    let (x, o) = demux::conc_run(&cfg, p, late, None, &schedule, &conn);
+    let x = x.expect("execution");
+    if verbose {
+        println!("schedule: {}\n outcome (received by, received again by, bound SSRCs, foreign) = {o:?}; sequential orders give {seq:?}", x.schedule().join(" "));
+    }
+    if x.deadlock {
+        vec!["demux-concurrent;deadlock".into()]
+    } else if !seq.contains(&o) {
+        vec![format!("demux-concurrent;not-linearizable;outcome={o:?}")]
+    } else {
+        vec![]
+    }
+}
+
 fn replay_file(path: &std::path::Path) -> i32 {
     let txt = std::fs::read_to_string(path).unwrap_or_else(|e| vh::machinery_failure(&format!("cannot read replay: {e}")));
     let v: Value = serde_json::from_str(&txt).unwrap_or_else(|e| vh::machinery_failure(&format!("bad replay json: {e}")));
@@ -96,6 +117,7 @@ fn replay_file(path: &std::path::Path) -> i32 {
     let f = |verbose| match r["part"].as_str() {
         Some("demux") => replay_demux(r, verbose),
         Some("bridge") => replay_bridge(r, verbose),
+        Some("demux-concurrent") => replay_conc(r, verbose),
         _ => vh::machinery_failure("replay: missing part"),
     };
     let a = f(true);
@@ -331,6 +353,24 @@ fn main() {
     let states = st1.histories_nodedup + st1.canon_states + st1b.histories_nodedup + st1b.canon_states + bridge_states;
     let transitions = st1.transitions + st1.reg_ops + st1b.transitions + st1b.reg_ops + st2.transitions;
     let traces = demux_hist + st2.histories_full;
+    // concurrent registration / delivery (controlled scheduler, hook H6 on the registry mutex)
+    let t_conc = std::time::Instant::now();
+    let cc = demux::conc_explore(&demux::conc_cases(thorough));
+    let mut conc_sigs: std::collections::BTreeMap<String, (String, Value, u64)> = Default::default();
+    for (sig, detail, replay) in &cc.viol {
+        conc_sigs.entry(sig.clone()).or_insert((detail.clone(), replay.clone(), 0)).2 += 1;
+    }
+    for (sig, (detail, replay, n)) in &conc_sigs {
+        rep.violation(vh::Violation { signature: sig.clone(), detail: format!("[{n} cases] {detail}"), replay: replay.clone() });
+    }
+    if conc_sigs.is_empty() && cc.racy_cases == 0 {
+        vh::machinery_failure("vacuous concurrent demux part: no case had two distinct outcomes over its schedules");
+    }
+    rep.set("concurrent_demux_cases", cc.cases);
+    rep.set("concurrent_demux_schedules", cc.schedules);
+    rep.set("concurrent_demux_cases_with_more_than_one_outcome", cc.racy_cases);
+    rep.set("concurrent_demux_wall_s", t_conc.elapsed().as_secs_f64());
+    let states = states + cc.schedules;
     rep.set("states", states);
     rep.set("transitions", transitions);
     rep.set("traces_validated_against_impl", traces);
